@@ -17,7 +17,11 @@ KF_FILE = os.path.join(VERIF, "known_findings.json")
 
 SAN_ENV = {
     "ASAN_OPTIONS": "exitcode=77:detect_leaks=0:abort_on_error=0:allocator_may_return_null=1:"
-                    "detect_stack_use_after_return=0:handle_abort=0:max_allocation_size_mb=2048",
+                    "detect_stack_use_after_return=0:handle_abort=0:max_allocation_size_mb=2048:"
+                    # memory: rapidcheck's deep and varied call stacks fill ASan's stack depot (0.85 GB after 400 000 cases with
+                    # the default 30 frames, 16 shards of 1.5 M cases were killed by the OOM killer); 6 frames of allocation
+                    # context and a 64 MB quarantine keep a shard below 1 GB. The stack of the faulting access is not shortened.
+                    "malloc_context_size=6:quarantine_size_mb=64",
     "UBSAN_OPTIONS": "print_stacktrace=1:exitcode=77:halt_on_error=1",
     "TSAN_OPTIONS": "halt_on_error=1:exitcode=66:second_deadlock_stack=1:history_size=4",
     "TZ": "UTC",
